@@ -1351,8 +1351,22 @@ void CoreSMTSolver::popBacktrackPoint()
     assert( isOK( ) );
 }
 
+#ifdef OPENSMT_VERIF
+thread_local VerifStopCounter verifStopCounter;
+#endif
+
 bool CoreSMTSolver::okContinue() const
 {
+#ifdef OPENSMT_VERIF
+    if (verifStopCounter.stopAtPoll >= 0 and static_cast<long>(verifStopCounter.polls) == verifStopCounter.stopAtPoll) {
+        if (verifStopCounter.global) {
+            notifyGlobalStop();
+        } else {
+            const_cast<CoreSMTSolver *>(this)->notifyStop();
+        }
+    }
+    ++verifStopCounter.polls;
+#endif
     return not stopped() and not globallyStopped();
 }
 
